@@ -60,6 +60,12 @@ func (x *fnExec) call(fr *frame, st *State, ci ssa.CallInstruction, res ssa.Valu
 	}
 	// dynamic call through a function value
 	x.atCall(fr, st, ci, "funcvalue", args)
+	if isUserFactoryType(x.P, cc.Value.Type()) {
+		x.assumed["user-supplied "+typeName(cc.Value.Type())+" values do not modify SCTP state"] = true
+		v := fresh("factory")
+		x.setResult(fr, res, v)
+		return
+	}
 	x.havocAll(st, "call through function value in "+funcKey(fr.fn)+" at "+x.P.Fset.Position(ci.Pos()).String())
 	x.setResult(fr, res, fresh("dyncall"))
 }
@@ -206,6 +212,17 @@ func (x *fnExec) canAutoInline(fr *frame, fn *ssa.Function) bool {
 		}
 	}
 	return true
+}
+
+// isUserFactoryType: exported named function types of the package (stream scheduler factories) are user-supplied hooks
+// that cannot reach unexported SCTP state.
+func isUserFactoryType(p *Program, t types.Type) bool {
+	n, ok := t.(*types.Named)
+	if !ok || n.Obj().Pkg() != p.Pkg.Types || !n.Obj().Exported() {
+		return false
+	}
+	_, isSig := n.Underlying().(*types.Signature)
+	return isSig
 }
 
 // ---------- contracts at call sites ----------
@@ -646,7 +663,9 @@ func (p *Program) effectsPass(fn *ssa.Function, e *effectSet) {
 						e.top = true
 					}
 				default:
-					e.top = true
+					if !isUserFactoryType(p, cc.Value.Type()) {
+						e.top = true
+					}
 				}
 			}
 		}
